@@ -267,7 +267,7 @@ func wellFormed(m gen.ArmMember) bool {
 
 func Replay(scenario string, raw json.RawMessage) []*mc.Violation {
 	var in In
-	if err := json.Unmarshal(raw, &in); err != nil {
+	if err := mc.UnmarshalInput(raw, &in); err != nil {
 		return nil
 	}
 	if v := checkSeq(scenario, in); v != nil {
